@@ -108,6 +108,32 @@ class Tok:
         self.name = name
 
 
+class EqTok(Tok):
+    """a token that CLAIMS to be equal to everything, None included (like unittest.mock.ANY / a matcher / a proxy):
+    it is not None, so only an identity test may decide what default_if_none / optional do with it"""
+    __slots__ = ()
+
+    def __eq__(self, other):
+        return True
+
+    def __ne__(self, other):
+        return False
+
+    __hash__ = object.__hash__
+
+
+class NullishInt(int):
+    """a falsy int subclass whose == / != say it equals None"""
+
+    def __eq__(self, other):
+        return other is None or int.__eq__(self, other)
+
+    def __ne__(self, other):
+        return not self.__eq__(other)
+
+    __hash__ = int.__hash__
+
+
 class Term:
     """value built by an instrumented callback"""
     __slots__ = ("text",)
@@ -140,7 +166,15 @@ def decode(val):
         return _reg([]) if s == "[]" else v
     t = TOKS.get(s)
     if t is None:
-        t = TOKS[s] = _reg(Tok(s))
+        # names eqA* / eqN*: not-None objects whose comparison dunders claim equality with None (the model sees an
+        # ordinary non-None value: Val.v)
+        if s.startswith("eqA"):
+            t = EqTok(s)
+        elif s.startswith("eqN"):
+            t = NullishInt(0)
+        else:
+            t = Tok(s)
+        TOKS[s] = _reg(t)
     return t
 
 
@@ -149,8 +183,10 @@ def render(v):
         return "None"
     t = type(v)
     # the very objects must travel through the combinators: a copy is rendered differently
-    if t is Tok:
+    if t is Tok or t is EqTok:
         return v.name + ("" if _known(v) else "~copy")
+    if t is NullishInt:
+        return next((k for k, o in TOKS.items() if o is v), "eqN~copy")
     if t is Term:
         return v.text + ("" if _known(v) else "~copy")
     if t is Fresh:
@@ -238,6 +274,22 @@ def _alias(name):
     return name.lstrip("_")
 
 
+def alias_map(flds):
+    """field name -> (init argument name, explicit?): attrs's default alias (leading underscores stripped) unless an
+    earlier field of the class already uses it (`_x` next to `x`): then the later twin gets an explicit alias="""
+    used, out = set(), {}
+    for f in flds:
+        n = f["name"]
+        a = _alias(n)
+        if a in used:
+            a = f"al{len(n) - len(a)}_{a}"
+            out[n] = (a, True)
+        else:
+            out[n] = (a, False)
+        used.add(a)
+    return out
+
+
 _N = [0]
 
 
@@ -300,6 +352,7 @@ def make_class(case, make_conv, default=attr.NOTHING):
     body = {}
     the_conv = make_conv()
     seen_default = False
+    amap = alias_map(case["flds"])
     for f in case["flds"]:
         kind = f["kind"]
         if kind == "shared":
@@ -321,6 +374,8 @@ def make_class(case, make_conv, default=attr.NOTHING):
                 fkw["kw_only"] = True   # a mandatory field may follow a defaulted one only as keyword-only
         if field_hook is not None and kind in ("shared", "own"):
             fkw["on_setattr"] = field_hook()
+        if amap[f["name"]][1]:
+            fkw["alias"] = amap[f["name"]][0]
         body[f["name"]] = mk(**fkw)
     _N[0] += 1
     name = f"C{_N[0] % 7}"
@@ -439,12 +494,13 @@ def _run_init(cls, flds, v, use_default):
     CUR["cls"] = cls
     n0 = len(CUR["insts"])
     kw = {}
+    amap = alias_map(flds)
     for f in flds:
         if f["kind"] == "shared":
             if not use_default:
-                kw[_alias(f["name"])] = v
+                kw[amap[f["name"]][0]] = v
         else:
-            kw[_alias(f["name"])] = _reg(Tok("ty"))
+            kw[amap[f["name"]][0]] = _reg(Tok("ty"))
     try:
         o = cls(**kw)
     except BaseException as e:  # noqa: BLE001
@@ -473,10 +529,20 @@ def rand_flds(rng, mode):
         # fields with a converter of their own, with a validator only, with nothing -- anywhere among them
         for n in rng.sample(BGNAMES, rng.choice([0, 0, 1, 1, 2, 3])):
             flds.insert(rng.randrange(len(flds) + 1), {"name": n, "kind": rng.choice(["own", "validator", "plain"])})
+        if rng.random() < 0.3:
+            # underscore twins in one class (`_x` next to `x`): the later one gets an explicit alias=; each
+            # must still be converted by its own converter, with its own field, everywhere
+            base = rng.choice(flds)["name"]
+            # (no dunder-prefixed names: type() mangles such slot names, which no class body could produce)
+            twin = ("_" + base) if not base.startswith("_") else base.lstrip("_")
+            if all(f["name"] != twin for f in flds):
+                kind = rng.choice(["own", "own", "own", "shared", "validator"])
+                flds.insert(rng.randrange(len(flds) + 1), {"name": twin, "kind": kind})
     return flds
 INPUT_POOL = ["none", {"v": {"s": "t0"}}, {"v": {"s": "t1"}}, {"v": {"s": "0"}}, {"v": {"s": "''"}},
-              {"v": {"s": "[]"}}, {"v": {"s": "False"}}]
-DFLT_POOL = [{"v": {"s": "d0"}}, {"v": {"s": "d1"}}, {"v": {"s": "0"}}, "none", {"v": {"s": "False"}}]
+              {"v": {"s": "[]"}}, {"v": {"s": "False"}}, {"v": {"s": "eqA0"}}, {"v": {"s": "eqN0"}}]
+DFLT_POOL = [{"v": {"s": "d0"}}, {"v": {"s": "d1"}}, {"v": {"s": "0"}}, "none", {"v": {"s": "False"}},
+             {"v": {"s": "eqA1"}}]
 
 
 def rand_beh(rng, p_fault=0.08):
@@ -627,6 +693,18 @@ def gen_cases(tier, rng):
                     fl = [{"name": n, "kind": k} for n, k in zip(names, order)]
                     c = mk_case(rng, t, "assign", [{"v": {"s": "t0"}}, "none"], flds=fl)
                     yield with_cfg(c, dict(c["cfg"], hookcfg=hk, api=api, share="object"))
+    # underscore twins: `_x` next to `x` in one class (the later one with an explicit alias=), one carrying
+    # the case's converter and the other a converter of its own, in both orders, in every class mode
+    for ti, t in enumerate(atrees + [{"dinF": {"g": "g1", "beh": "term"}}]):
+        for a, b in (("_x", "x"), ("x", "_x"), ("_converter_x", "converter_x")):
+            for ka, kb in ((S_, O_), (O_, S_), (S_, S_)):
+                for mode in MODES[1:]:
+                    if tier == "quick" and mode in ("assign", "setter") and (ti or ka == kb):
+                        continue
+                    fl = [{"name": a, "kind": ka}, {"name": b, "kind": kb}]
+                    if ti % 2:
+                        fl.insert(1, {"name": "m", "kind": V_})
+                    yield mk_case(rng, t, mode, [{"v": {"s": "t0"}}, "none"], flds=fl)
     # law-shaped trees: nested pipes vs flat pipes, optional / default_if_none around Converters at every level
     n = 9000 if tier == "quick" else 150000
     for _ in range(n):
@@ -703,6 +781,8 @@ def dist(case, obs):
         "conv.repeated_input": len({json.dumps(i, sort_keys=True) for i in case["inputs"]}) < len(case["inputs"]),
         "conv.callable_style": case.get("cfg", {}).get("callable", "function"),
         "conv.n_sharing_fields": sum(1 for f in case["flds"] if f["kind"] == "shared"),
+        "conv.underscore_twins": any(x[1] for x in alias_map(case["flds"]).values()),
+        "conv.eq_none_input": any(isinstance(i, dict) and i["v"]["s"].startswith("eq") for i in case["inputs"]),
         "conv.other_fields": "+".join(sorted({f["kind"] for f in case["flds"] if f["kind"] != "shared"})) or "-",
         "conv.first_hooked_field": next((f["kind"] for f in case["flds"] if f["kind"] != "plain"), "-"),
         "conv.hookcfg": case.get("cfg", {}).get("hookcfg") if case["mode"] == "assign" else "-",
